@@ -1031,6 +1031,20 @@ impl TypedScenario for C01Raw {
         }
     }
     fn generate(&self, seed: u64, index: usize, _tier: Tier) -> RawPlan {
+        gen_raw_plan(seed, index, false)
+    }
+    fn execute(&self, plan: &RawPlan, trace: bool) -> Exec {
+        exec_raw(plan, trace)
+    }
+    fn shrink(&self, plan: &RawPlan) -> Vec<RawPlan> {
+        shrink_raw(plan)
+    }
+}
+
+/// `paced`: every stream's preamble is cut at least once and the pieces are 6-15 s apart (the
+/// peer paces its writes: an acceptor may wait for the rest of a preamble as long as it takes)
+pub fn gen_raw_plan(seed: u64, index: usize, paced: bool) -> RawPlan {
+    {
         let mut rng = Rng::new(seed, "c01-raw");
         let mut base = crate::rawscript::base_script(seed, index % 2 == 0);
         base.net.lat_min_us = *rng.pick(&[200u64, 1_000, 5_000]);
@@ -1046,17 +1060,23 @@ impl TypedScenario for C01Raw {
                 let pre = 2 + sid_len;
                 let ncuts = rng.usize(0, 3);
                 let mut cuts: Vec<usize> = (0..ncuts).map(|_| if rng.chance_pm(800) { rng.usize(1, pre) } else { rng.usize(1, pre + len.max(1)) }).collect();
+                if paced && !cuts.iter().any(|c| *c < pre) {
+                    cuts.push(rng.usize(1, pre - 1));
+                }
                 cuts.sort();
                 cuts.dedup();
                 RawStream { bidi: rng.coin(), sid_len, cuts, len, key: rng.next_u64() }
             })
             .collect();
+        if paced {
+            base.long_gap_ms = *rng.pick(&[5_500u64, 6_000, 9_000, 15_000]);
+        }
         RawPlan { base, streams, close_code: rng.next_u64() as u32 }
     }
-    fn execute(&self, plan: &RawPlan, trace: bool) -> Exec {
-        exec_raw(plan, trace)
-    }
-    fn shrink(&self, plan: &RawPlan) -> Vec<RawPlan> {
+}
+
+pub fn shrink_raw(plan: &RawPlan) -> Vec<RawPlan> {
+    {
         let v = serde_json::to_value(plan).unwrap();
         let mut c = shrink_array(&v, "/streams", 1);
         for i in 0..plan.streams.len() {
